@@ -1555,3 +1555,4 @@ Section IntegratorProofs.
 End IntegratorProofs.
 
 Arguments strict {X}. Arguments Cover {X}. Arguments chain {X}. Arguments ab {X}. Arguments TW {X}.
+Arguments belongs {X}.
